@@ -201,12 +201,25 @@ type Alias struct {
 	L     *Leaf
 	LX    AliasIn
 	Name  string
+	Cost  Money
+	PCost *Money
 }
 
 type AliasIn struct {
 	Leaf *Leaf
 	Name string
+	Fee  Money
 }
+
+// Money is a struct type with an IsZero method (as encoding/json's omitzero and many domain types have) that
+// calls a value "zero" which is not the Go zero value: for the validator it is a struct like any other - a
+// populated one whenever any field is set, with rules, per-type rule sets and descent as usual.
+type Money struct {
+	Currency string
+	Cents    int
+}
+
+func (m Money) IsZero() bool { return m.Cents == 0 }
 
 // Time is a struct type of this package that happens to be NAMED like time.Time (a time of day).
 type Time struct {
@@ -217,6 +230,7 @@ var Types = map[string]reflect.Type{
 	"Time":    reflect.TypeOf(Time{}),
 	"Alias":   reflect.TypeOf(Alias{}),
 	"AliasIn": reflect.TypeOf(AliasIn{}),
+	"Money":   reflect.TypeOf(Money{}),
 	"DirT":    reflect.TypeOf(DirT{}),
 	"EntsT":   reflect.TypeOf(EntsT{}),
 	"Leaf":    reflect.TypeOf(Leaf{}),
